@@ -306,22 +306,430 @@ def check(ctx):
             harness.unlink()
         except OSError:
             pass
+        cleanup_scratch()
 
 
 def is_fs_history(h):
     return any(l.split()[0].startswith("fs") for l in h)
 
 
+# ---- file-system part ---------------------------------------------------------------------------------
+def canon(line):
+    """snapshot entries (and directory listings) are sets: sort them"""
+    if " |" not in line:
+        return line
+    r, _, snap = line.partition(" |")
+    rt = r.split(" ")
+    if rt and rt[0].startswith("ls="):
+        rt = [rt[0]] + sorted(rt[1:])
+    return " ".join(rt) + " | " + " ".join(sorted(snap.split()))
+
+
+def fs_eq(a, b):
+    return canon(a) == canon(b)
+
+
+def parse_snapshot(line):
+    """-> (result text, {path: ('d',) | ('f', bytes) | ('l', target)})"""
+    r, _, snap = line.partition(" |")
+    tree = {}
+    for t in snap.split():
+        k = t.split(":")
+        path = unhx(k[1])
+        if k[0] == "d": tree[path] = ("d",)
+        elif k[0] == "f": tree[path] = ("f", unhx(k[2]))
+        else: tree[path] = ("l", unhx(k[2]))
+    return r.strip(), tree
+
+
+INIT_TREE = {"s": ("d",), "o": ("d",), "o/of": ("f", "OUT"), "o/od": ("d",), "o/od/x": ("f", "X")}
+
+
+def py_resolve(tree, path, follow, depth=0):
+    """kernel-like resolution on a snapshot; -> ('found', canonical path, entry) | ('missing', parent, name) | ('err',)"""
+    if path == "" or depth > 40:
+        return ("err",)
+    cur = [] if path.startswith("/") else ["s"]
+    comps = [c for c in path.split("/") if c != ""]
+    i = 0
+    budget = 200
+    while i < len(comps):
+        budget -= 1
+        if budget < 0:
+            return ("err",)
+        c = comps[i]
+        last = i == len(comps) - 1
+        if c == ".":
+            i += 1
+            continue
+        if c == "..":
+            cur = cur[:-1]
+            i += 1
+            continue
+        key = "/".join(cur + [c])
+        e = tree.get(key)
+        if e is None:
+            return ("missing", "/".join(cur), c) if last else ("err",)
+        if e[0] == "d":
+            cur = cur + [c]
+            i += 1
+        elif e[0] == "f":
+            if last:
+                return ("found", key, e)
+            return ("err",)
+        else:
+            if last and not follow:
+                return ("found", key, e)
+            t = e[1]
+            if t.startswith("/"):
+                cur = []
+            comps = [x for x in t.split("/") if x != ""] + comps[i + 1:]
+            i = 0
+    return ("found", "/".join(cur), ("d",))
+
+
+def py_script(content, flags, script):
+    """byte-array semantics of one File object; -> (expected output text, final content)"""
+    rd, wr, app = bool(flags & 1), bool(flags & 2), bool(flags & 4)
+    if not rd and not wr:
+        rd = True
+    if wr and not rd and not app and not flags & 8:
+        content = ""
+    pos = len(content) if app else 0
+    out = []
+    for it in script.split(","):
+        if it[0] == "w":
+            d = unhx(it[1:])
+            if not wr:
+                out.append("w=0" if d else "w=0")
+                if not d:
+                    out[-1] = "w=0"
+                continue
+            if d:
+                content = (content + "\0" * (pos - len(content)))[:pos] + d + content[pos + len(d):]
+                pos += len(d)
+            out.append("w=1")
+        elif it[0] == "r":
+            if wr and not rd:
+                out.append("r=fail")
+            else:
+                out.append("r=" + hx(content[pos:]))
+                pos = max(pos, len(content))
+        elif it[0] == "z":
+            out.append(f"z={len(content)}")
+        elif it[0] == "s":
+            w, off = it[1], int(it[3:])
+            base = 0 if w == "0" else pos if w == "1" else len(content)
+            if base + off < 0:
+                out.append("s=-1")
+            else:
+                pos = base + off
+                out.append(f"s={pos}")
+    return " ".join(out), content
+
+
+def fs_reference(hist, impl):
+    """laws of C19 evaluated on the implementation's own observations (independent of the Lean model).
+    Returns, per op, the implementation's line when every law holds, else a text naming the broken law."""
+    out = []
+    tree = dict(INIT_TREE)
+    for k, line in enumerate(hist):
+        if k >= len(impl):
+            break
+        o = impl[k]
+        t = line.split()
+        if " |" not in o:
+            out.append(o)
+            continue
+        res, after = parse_snapshot(o)
+        bad = None
+        sent_b = {p: e for p, e in tree.items() if p == "o" or p.startswith("o/")}
+        sent_a = {p: e for p, e in after.items() if p == "o" or p.startswith("o/")}
+        if sent_a != sent_b:
+            bad = "outside sentinel changed"
+        op = t[0]
+        r0 = res.split(" ")[0]
+        if not bad and op in ("fscreate", "fscreatef", "fscreateabs"):
+            p = unhx(t[1]) if op != "fscreateabs" else "/s/" + unhx(t[1])
+            rr = py_resolve(after, p, True)
+            isdir = rr[0] == "found" and rr[2][0] == "d"
+            if (r0 == "1") != isdir:
+                bad = f"Directory::create returned {r0} but directory exists afterwards = {isdir}"
+            elif set(tree) - set(after) or any(after[q] != tree[q] for q in tree):
+                bad = "Directory::create changed or removed an existing entry"
+            elif any(after[q][0] != "d" for q in after if q not in tree):
+                bad = "Directory::create made something that is no directory"
+        if not bad and op in ("fscopy", "fscopyf", "fsrename") and r0 == "0":
+            new = set(after) - set(tree)
+            if new:
+                bad = f"failed {op} left new entries behind: {sorted(new)}"
+        if not bad and op in ("fscopy", "fscopyf") and r0 == "1":
+            src = py_resolve(tree, unhx(t[1]), True)
+            dst = py_resolve(after, unhx(t[2]), True)
+            if src[0] != "found" or src[2][0] != "f" or dst[0] != "found" or dst[2] != src[2]:
+                bad = "copy reported success but destination bytes differ from the source"
+        if not bad and op == "fsrename" and r0 == "1":
+            src = py_resolve(tree, unhx(t[1]), False)
+            dst = py_resolve(after, unhx(t[2]), False)
+            if src[0] != "found" or dst[0] != "found" or dst[2] != src[2]:
+                bad = "rename reported success but the destination is not the old source"
+        if not bad and op == "fsrmdir":
+            rr = py_resolve(tree, unhx(t[1]), False)
+            if r0 == "1":
+                if rr[0] != "found" or rr[2][0] != "d":
+                    bad = "Directory::unlink reported success on something that is no directory"
+                else:
+                    P = rr[1]
+                    want = {q: e for q, e in tree.items() if not (q == P or q.startswith(P + "/"))}
+                    if after != want:
+                        bad = "Directory::unlink did not remove exactly the tree"
+                    if t[2] == "0" and any(q.startswith(P + "/") for q in tree):
+                        bad = "non-recursive Directory::unlink removed a non-empty directory"
+            else:
+                P = rr[1] if rr[0] == "found" else None
+                for q in set(tree) | set(after):
+                    if P is not None and (q == P or q.startswith(P + "/")):
+                        continue
+                    if tree.get(q) != after.get(q):
+                        bad = "failed Directory::unlink changed an entry outside the tree"
+        if not bad and op == "fsunlink":
+            rr = py_resolve(tree, unhx(t[1]), False)
+            if r0 == "1":
+                want = dict(tree)
+                if rr[0] == "found":
+                    want.pop(rr[1], None)
+                if rr[0] != "found" or rr[2][0] == "d" or after != want:
+                    bad = "File::unlink did not remove exactly that entry"
+            elif after != tree:
+                bad = "failed File::unlink changed the tree"
+        if not bad and op in ("fsexists", "fsreadall", "fsls") and after != tree:
+            bad = f"{op} changed the tree"
+        if not bad and op == "fsexists":
+            a_ = py_resolve(tree, unhx(t[1]), False)[0] == "found"
+            b_ = py_resolve(tree, unhx(t[1]), True)
+            want = f"{1 if a_ else 0} {1 if b_[0] == 'found' and b_[2][0] == 'd' else 0}"
+            if res != want:
+                bad = f"exists: expected {want}"
+        if not bad and op == "fsreadall":
+            rr = py_resolve(tree, unhx(t[1]), True)
+            want = "1 " + hx(rr[2][1]) if rr[0] == "found" and rr[2][0] == "f" else "0"
+            if res != want:
+                bad = f"readAll: expected {want}"
+        if not bad and op == "fsfile":
+            flags = int(t[2])
+            rr = py_resolve(tree, unhx(t[1]), True)
+            creates = (flags & 2) and not (flags & 8)
+            if rr[0] == "found" and rr[2][0] == "f" or (rr[0] == "missing" and creates):
+                content = rr[2][1] if rr[0] == "found" else ""
+                key = rr[1] if rr[0] == "found" else (rr[1] + "/" + rr[2] if rr[1] else rr[2])
+                exp, final = py_script(content, flags, t[3])
+                want = dict(tree)
+                want[key] = ("f", final)
+                if res != "open=1 " + exp:
+                    bad = f"file bytes: expected 'open=1 {exp}'"
+                elif after != want:
+                    bad = "file bytes: content after the script differs from the byte-array semantics"
+            elif rr[0] == "missing" and not creates or rr[0] == "err":
+                if res != "open=0" or after != tree:
+                    bad = "open of a missing file must fail and leave nothing behind"
+        out.append(o if not bad else "law-of-C19-broken: " + bad)
+        tree = after
+    return out
+
+
+fs_reference.uses_impl = True
+fs_reference.eq = lambda i, r: i == r
+
+OUT_LINKS = {"l": "/o/od", "m": "/o/of", "n": "/o/none"}
+IN_LINKS = {"i": ["/s/a", "a", "b", "/s", ".", "f", "nowhere", "a/f", "/s/b", "j"], "j": ["b", "/s/a/b", "g", "i"]}
+DIRN = ["a", "b", "c"]
+FILEN = ["f", "g"]
+
+
+def fs_path(rng, final=None, allow_out_final=False, decorate=True):
+    """a path whose non-final components are never outside links and that never climbs above the world root:
+    '..' only while no link name occurred before (names a,b,c,f,g,h,k never are links) and the depth stays >= 0"""
+    depth = rng.choice([0, 0, 1, 1, 2, 3])
+    comps = []
+    level, linked = 1, False
+    for _ in range(depth):
+        c = rng.choice(DIRN + DIRN + ["i", ".", ".."] if decorate else DIRN)
+        if c == "..":
+            if linked or level - 1 < 0:
+                c = "."
+            else:
+                level -= 1
+        elif c == "i":
+            linked = True
+        elif c != ".":
+            level += 1
+        comps.append(c)
+    if final is None:
+        pool = DIRN + FILEN + ["i", "j"] + (list(OUT_LINKS) if allow_out_final else [])
+        final = rng.choice(pool)
+    comps.append(final)
+    s = "/".join(comps)
+    if decorate:
+        k = rng.random()
+        if k < 0.06: s = "./" + s
+        elif k < 0.10: s = s.replace("/", "//", 1)
+        elif k < 0.16: s = "/s/" + s
+    return s
+
+
+def fs_setup(rng):
+    h = []
+    for _ in range(rng.randrange(2, 9)):
+        k = rng.random()
+        if k < 0.35:
+            h.append(f"fscreate {hx(fs_path(rng, rng.choice(DIRN), decorate=False))}")
+        elif k < 0.6:
+            h.append(f"fsmkfile {hx(fs_path(rng, rng.choice(FILEN), decorate=False))} {hx(rng.choice(['', 'x', 'hello', 'abc' * 5]))}")
+        elif k < 0.85:
+            n = rng.choice(list(OUT_LINKS))
+            h.append(f"fssymlink {hx(OUT_LINKS[n])} {hx(fs_path(rng, n, decorate=False))}")
+        else:
+            n = rng.choice(list(IN_LINKS))
+            h.append(f"fssymlink {hx(rng.choice(IN_LINKS[n]))} {hx(fs_path(rng, n, decorate=False))}")
+    return h
+
+
+def rand_script(rng):
+    its = []
+    for _ in range(rng.randrange(1, 6)):
+        k = rng.random()
+        if k < 0.45: its.append("w" + hx("".join(rng.choice("abcXYZ") for _ in range(rng.choice([0, 1, 2, 3, 5, 9])))))
+        elif k < 0.65: its.append(f"s{rng.choice('012')}:{rng.choice([0, 0, 1, 2, 3, 7, -1, -2, -20])}")
+        elif k < 0.85: its.append("r")
+        else: its.append("z")
+    return ",".join(its).replace("w-", "w-")
+
+
+def fs_random_history(rng, n):
+    h = fs_setup(rng)
+    for _ in range(n):
+        k = rng.random()
+        if k < 0.14:
+            p = fs_path(rng, rng.choice(DIRN + FILEN + ["i"] + list(OUT_LINKS)))
+            if rng.random() < 0.15 and p[-1] in "abc": p += "/"
+            if rng.random() < 0.08 and "i" not in p.split("/") and p[-1] in "abc": p += rng.choice(["/.", "/.."])
+            h.append(f"fscreate {hx(p)}")
+        elif k < 0.19:
+            h.append(f"fscreatef {hx(fs_path(rng, rng.choice(DIRN)))} {rng.randrange(0, 3)}")
+        elif k < 0.21:
+            h.append(f"fscreateabs {hx(fs_path(rng, rng.choice(DIRN), decorate=False))}")
+        elif k < 0.33:
+            h.append(f"fsrmdir {hx(fs_path(rng, rng.choice(DIRN + DIRN + FILEN + ['i'] + list(OUT_LINKS))))} {rng.choice('011')}")
+        elif k < 0.40:
+            h.append(f"fsunlink {hx(fs_path(rng, allow_out_final=True))}")
+        elif k < 0.52:
+            a = fs_path(rng, allow_out_final=True)
+            last = a.rstrip("/").split("/")[-1]
+            # links keep link names (the generator relies on a,b,c,f,g,h,k never being links)
+            b = fs_path(rng, rng.choice(list(OUT_LINKS)) if last in OUT_LINKS else rng.choice(["i", "j"]) if last in ("i", "j")
+                        else rng.choice(DIRN + FILEN + ["h"]))
+            h.append(f"fsrename {hx(a)} {hx(b)} {rng.choice('01')}")
+        elif k < 0.64:
+            a = fs_path(rng, allow_out_final=True)
+            b = fs_path(rng, rng.choice(DIRN + FILEN + ["h", "k"]))
+            if rng.random() < 0.3:
+                h.append(f"fscopyf {hx(a)} {hx(b)} {rng.choice('01')} {rng.choice('01')}")
+            else:
+                h.append(f"fscopy {hx(a)} {hx(b)} {rng.choice('01')}")
+        elif k < 0.70:
+            h.append(f"fsexists {hx(fs_path(rng, allow_out_final=True))}")
+        elif k < 0.75:
+            h.append(f"fsreadall {hx(fs_path(rng, allow_out_final=True))}")
+        elif k < 0.80:
+            h.append(f"fsls {hx(fs_path(rng, rng.choice(DIRN + ['i', 'l', '.'])))}")
+        elif k < 0.95:
+            h.append(f"fsfile {hx(fs_path(rng, rng.choice(FILEN + FILEN + ['h', 'a'])))} {rng.choice([1, 2, 3, 6, 7, 10, 11, 2, 3, 6, 0, 4])} {rand_script(rng)}")
+        else:
+            h.append(f"fsmkfile {hx(fs_path(rng, rng.choice(FILEN), decorate=False))} {hx(rng.choice(['', 'q', 'data']))}")
+    return h
+
+
+FS_FIXTURE = [f"fscreate {hx('a/b')}", f"fsmkfile {hx('a/f')} {hx('hello')}", f"fsmkfile {hx('a/b/g')} {hx('xy')}",
+              f"fssymlink {hx('/o/od')} {hx('a/l')}", f"fssymlink {hx('/o/of')} {hx('a/b/m')}", f"fssymlink {hx('/o/none')} {hx('n')}",
+              f"fssymlink {hx('a')} {hx('i')}"]
+FS_SMALL = [f"fscreate {hx(p)}" for p in ["a", "a/f", "a/f/x", "c/b/a", "a/l", "n", "a/c/", "a/./c", "a/b/../c", "", "/s/c/c", "i/c"]] + \
+           [f"fscreatef {hx('c/b')} {k}" for k in (0, 1)] + \
+           [f"fsrmdir {hx(p)} {r}" for p in ["a", "a/b", "a/l", "a/f", "c", "i"] for r in "01"] + \
+           [f"fsunlink {hx(p)}" for p in ["a/f", "a/l", "a", "a/b/m", "n", "zz"]] + \
+           [f"fsrename {hx(a)} {hx(b)} {f}" for a, b in [("a/f", "a/h"), ("zz", "a/h"), ("a/f", "a/b/g"), ("a", "c"), ("a/l", "a/m"), ("a/f", "a/f")] for f in "01"] + \
+           [f"fscopy {hx(a)} {hx(b)} {f}" for a, b in [("a/f", "a/h"), ("a", "a/h"), ("a/f", "a/b/g"), ("zz", "a/h"), ("a/b/m", "h"), ("a/l", "h"), ("a/f", "a/b")] for f in "01"] + \
+           [f"fscopyf {hx('a/f')} {hx(b)} {f} {m}" for b in ["a/h", "a/b/g"] for f in "01" for m in "01"] + \
+           [f"fsfile {hx('a/f')} {fl} {sc}" for fl in (1, 2, 3, 6, 7, 10) for sc in ("w5859,r", "s2:-2,w41,s0:0,r", "s0:8,w42,z")] + \
+           [f"fsfile {hx('a/h')} {fl} w4142,s0:0,r" for fl in (1, 2, 3, 6, 10, 11)] + \
+           [f"fsexists {hx(p)}" for p in ["a/l", "a/b/m", "n", "a/f", "zz", "i", "i/f"]] + \
+           [f"fsreadall {hx(p)}" for p in ["a/f", "a/b/m", "a", "n", "i/f"]] + [f"fsls {hx(p)}" for p in ["a", "a/l", "i", "", "a/f"]]
+
+
+def fs_histories(ctx):
+    quick = ctx.tier == "quick"
+    rng = ctx.rng
+    ex = [FS_FIXTURE + [o] for o in FS_SMALL]
+    pairs = [FS_FIXTURE + [a, b] for a in FS_SMALL for b in FS_SMALL]
+    if quick:
+        rng.shuffle(pairs)
+        pairs = pairs[:500]
+    rnd = [fs_random_history(rng, rng.choice([5, 10, 20, 30])) for _ in range(500 if quick else 12000)]
+    ctx.cov["fs_scope"] = (f"fs: fixture tree (file, sub-directory, links to the outside sentinel directory/file/nothing, inner link) + every op of a "
+                           f"{len(FS_SMALL)}-op alphabet ({len(ex)}) + {'500 sampled' if quick else 'all ' + str(len(pairs))} pairs + {len(rnd)} random histories "
+                           "(random trees; paths with '.', '..', '//', absolute, through inner links; outside links only as final component of non-writing ops)")
+    return ex + pairs + rnd
+
+
+def fs_nontrivial(h, out):
+    if len(out) < 3:
+        return None
+    return (frozenset(l.split()[0] for l in h), canon(out[-1]))
+
+
 def fs_check(ctx, harness, drv):
-    ctx.notes.append("file-system correspondence not run")
+    corpus = [h for h in C.load_corpus(ctx.prop) if is_fs_history(h)]
+    hs = corpus + fs_histories(ctx)
+    ops = ctx.cov.get("op_histogram", {})
+    for h in hs:
+        for l in h:
+            ops[l.split()[0]] = ops.get(l.split()[0], 0) + 1
+    ctx.cov["op_histogram"] = ops
+    ev0 = ctx.cov["evaluations"]
+    diffs = C.differential(ctx, harness, drv, hs, fs_reference, fs_eq, nontrivial=fs_nontrivial)
+    ctx.log(f"fs: {len(hs)} histories, {ctx.cov['evaluations'] - ev0} op lines, {len(diffs)} disagreement(s)")
+    C.report_diffs(ctx, diffs, harness, drv, fs_reference, fs_eq, "fs-operations")
+    # fault counts: re-run the faulted ops' histories once to read the harness' own counters
+    fl = [h for h in hs if any(l.startswith(("fscopyf", "fscreatef")) for l in h)][:60]
+    lines, _ = C.flatten(fl)
+    e = dict(os.environ)
+    e.update(C.SAN_ENV)
+    import subprocess
+    p = subprocess.run([str(harness)], input="\n".join(lines) + "\n", env=e, stdout=subprocess.PIPE, stderr=subprocess.PIPE, text=True)
+    m = [l for l in p.stderr.splitlines() if l.startswith("faults-fired")]
+    ctx.cov["faults_fired"] = (m[-1] if m else "none") + f" (in a re-run of {len(fl)} histories with faulted ops); per op the fired count is part of the compared observation"
+    ctx.cov["samples"] = ctx.cov.get("samples", []) + [" ; ".join(h) for h in hs[-2:]]
+    ctx.cov["rule"] += " || " + ctx.cov["fs_scope"] + "; every op line answers its result and a snapshot of the whole world (scratch + sentinel), compared with the Lean model's tree and checked against the laws of C19 by a Python oracle (own path resolver + byte-array file semantics)"
+    cleanup_scratch()
+
+
+def cleanup_scratch():
+    import glob
+    import shutil
+    base = os.environ.get("TMPDIR") or "/tmp"
+    for d in glob.glob(os.path.join(base, "nstd-verif-*")):
+        pid = d.rsplit("-", 1)[-1]
+        if pid.isdigit() and not os.path.exists(f"/proc/{pid}"):
+            shutil.rmtree(d, ignore_errors=True)
 
 
 def replay(ctx, path):
     h = C.parse_replay(path)
     harness = C.build_harness(ctx, "path", SOURCES)
     C.lake_build([DRIVER])
-    diffs = C.differential(ctx, harness, C.driver_path(DRIVER), [h], ref_with_laws, C.default_eq)
+    fs = is_fs_history(h)
+    diffs = C.differential(ctx, harness, C.driver_path(DRIVER), [h], fs_reference if fs else ref_with_laws, fs_eq if fs else C.default_eq)
     for d in diffs:
         print(d.text())
         ctx.violation(f"replay: {d.kind}", d.text())
     harness.unlink()
+    cleanup_scratch()
